@@ -73,7 +73,9 @@ DExec(t, lvl, cb) ==
   /\ ready /\ t \notin accepted /\ lvl \in Levels
   /\ undo' = [undo EXCEPT ![lvl] = Append(@, t)] /\ accepted' = accepted \cup {t}
   /\ hasCb' = IF cb THEN hasCb \cup {t} ELSE hasCb
-  /\ Cardinality(pendSpawn) = (IF ShouldSpawn THEN 1 ELSE 0) /\ pendSpawn' = {}
+  \* the spawn policy itself is implementation freedom (the code spawns iff ShouldSpawn): at most one new worker per execute(), never
+  \* beyond the maximum; that a task is not left without anybody to run it is the separate invariant NoOrphanTask
+  /\ Cardinality(pendSpawn) <= 1 /\ (pendSpawn # {} => Cardinality(threads \ pendSpawn) < maxT) /\ pendSpawn' = {}
   /\ UNCHANGED <<minT, maxT, ready, doing, idle, threads, stopFlag, exiting, collected, left, lastQ,
                  taken, began, ended, erased, cancelledOk, dropped, cbRan, insec>>
 (* ---- getTaskStatus(t): "tp.status" ---- *)
@@ -103,12 +105,12 @@ DJoined ==                \* "tp.cleanup.joined": every collected worker has bee
 (* ---- worker, top of its loop: "tp.w.exit_decide" / "tp.w.wait" ---- *)
 ExitCond(w) == Cardinality(idle) >= NumWaiting /\ Cardinality(threads) > minT
 DExitDecide(w, atomic) ==   \* atomic: the worker leaves the cabinet in the same critical section (intended design)
-  /\ w \notin exiting /\ w \notin idle /\ ExitCond(w)
+  /\ w \notin exiting /\ w \notin idle          \* (when a worker may exit is policy: the code uses ExitCond; NoOrphanTask guards the consequence)
   /\ IF atomic THEN threads' = threads \ {w} /\ UNCHANGED exiting
                ELSE exiting' = exiting \cup {w} /\ UNCHANGED threads
   /\ UNCHANGED <<minT, maxT, ready, undo, doing, idle, stopFlag, collected, left, pendSpawn, lastQ>> /\ UNCH_GHOST
 DWait(w) ==
-  /\ w \notin idle /\ ~ExitCond(w) /\ idle' = idle \cup {w}
+  /\ w \notin idle /\ idle' = idle \cup {w}
   /\ UNCHANGED <<minT, maxT, ready, undo, doing, threads, stopFlag, exiting, collected, left, pendSpawn, lastQ>> /\ UNCH_GHOST
 DWoken(w, flag) ==        \* "tp.w.woken": the wait predicate held; flag = stop flag as read by the worker
   /\ w \in idle /\ idle' = idle \ {w} /\ flag = stopFlag /\ (flag \/ Waiting # {})
